@@ -33,7 +33,7 @@ REQUIRED_THEOREMS = [
     "Acn.EventCore.foldl_push_ok", "Acn.EventCore.assembled_inv", "Acn.Sim.runStages_replicate_nil",
     "Acn.C01.run_terminates_assembled", "Acn.C01.sim_assembled_heap_C01",
     # interrupted (the scheduler raises in period k), possibly saved through JSON, and resumed — once or twice
-    "Acn.C01Resume.uninterrupted_completed", "Acn.C01Resume.exactly_once_across_resume",
+    "Acn.C01Resume.uninterrupted_completed", "Acn.C01Resume.exactly_once_across_resume", "Acn.C01Resume.aborted_state_spec",
     "Acn.C01Resume.exactly_once_across_resume_json", "Acn.C01Resume.exactly_once_across_resume_json_text",
     "Acn.C01Resume.exactly_once_across_two_resumes", "Acn.C01Resume.exactly_once_across_two_resumes_json_first",
 ]
